@@ -55,10 +55,14 @@ func childC05(args []string) {
 	switch phase {
 	case "accepted": // buffered channel: exactly-once, order, PID, credential, pointer identity
 		h := newSshHarness(8)
-		for i := from; i < to; i++ {
+		for i0 := from; i0 < to; i0++ {
+			i := repeatIdx(i0, from) // every seventeenth line repeats the previous one, same PID
+			if i != i0 {
+				out.add("lines_repeating_the_previous_line", 1)
+			}
 			c := c05Accepted(seed, i)
 			pid := c05PIDs[(i/4)%len(c05PIDs)]
-			out.begin(i, c.Msg)
+			out.begin(i0, c.Msg)
 			o := h.observe(ctx, "direct", pid, c.Msg, "", false)
 			out.add("accepted_lines", 1)
 			out.add("branch:"+c.Form, 1)
